@@ -82,7 +82,8 @@ CHECKS["C14"] = dict(level="translation_validation", engine="E3 grid",
    note="K=2 quick, 3 thorough. JWT requirements and partitions/namespaces (enterprise) are not generated. The evaluator's trust base is Envoy's documented RBAC semantics with Go RE2 full-match for safe_regex. One genuine defect repaired (unescaped names in SPIFFE patterns).",
    design="§3 C14")
 
-NOT_APPLICABLE = []
+_WIP = "not claimed yet: the check described in DESIGN.md for this property is not built at this commit (work in progress, not a statement that model checking cannot apply)"
+NOT_APPLICABLE = [dict(property_id=p, reason=_WIP) for p in ("C11", "C12", "C16", "C17", "C18")]
 
 def main():
     checks = []
